@@ -484,6 +484,8 @@ def install_spies():
                 return orig(self, *a, **kw)
             if kind == "tr" and "tr" in rec.monitors:
                 rec.tr.append(_tr_state(self, rec))
+            elif kind == "tr" and "pts" in rec.monitors:
+                rec.tr.append(_pts_state(self))
             out = orig(self, *a, **kw)
             rec.step_kind = kind
             if "steps" in rec.monitors:
@@ -587,6 +589,19 @@ def _tr_state(fw, rec):
         "best_index": int(fw.best_index),
         "merits": merits,
         "viols": viols,
+        "pts_out": float(max(np.max(xl[:, None] - pts, initial=0.0),
+                             np.max(pts - xu[:, None], initial=0.0))),
+    }
+
+
+def _pts_state(fw):
+    pb = fw._pb
+    m = fw.models
+    xl, xu = pb.bounds.xl, pb.bounds.xu
+    pts = m.interpolation.x_base[:, None] + m.interpolation.xpt
+    return {
+        "radius": float(fw.radius),
+        "resolution": float(fw.resolution),
         "pts_out": float(max(np.max(xl[:, None] - pts, initial=0.0),
                              np.max(pts - xu[:, None], initial=0.0))),
     }
